@@ -7,18 +7,20 @@ SPEC = {
     "driver": "Driver/C35.lean",
     "needs_plz": True,
     "level": "proof",
-    "level_text": "Decision logic, all declared lists / output shapes, digests abstract: C35_exact (exact accepted set), C35_iff (⇔ the property's "
-                  "condition `∃ algo ∈ hashfunction::hashcheckers, ∃ d declared, unprefix d = hex(outputHash_algo outs)` for every target whose "
-                  "output is not one lone directory), C35_sound (the `only if` for every shape), C35_single_dir, C35_prefixed / "
-                  "C35_unprefixed_verbatim / C35_alias_idempotent / C35_nonhex_rejected / C35_wrong_length_rejected (several colons, blanks, "
-                  "upper case, lengths). Step order: C35_no_trusted_leftover (failed verification ⇒ no output, needsBuilding true for every "
-                  "definition, cache untouched; keep-old included), C35_success_verified, C35_main / C35_property (over ALL histories of builds "
-                  "with any definitions, arbitrary — poisoned, stale — cache contents and removals, a successful build ends with outputs whose "
-                  "digest under the hash function or a configured checker is declared). The full property is DISPROVED on the pinned tree by "
-                  "kernel-checked witnesses replayed on the real binary: C35_witness_filegroup_unchanged, C35_witness_checkers_change (known "
-                  "findings); recorded corners that are not property failures: C35_corner_{hashfunction_outside_checkers,single_dir,"
-                  "stale_memo,noverify}. Out of model: remote execution, post-build functions / output_dirs, remote_file downloads, "
-                  "http cache, crashes between restore and verification, path-hash collisions (C09), `plz hash --update`.",
+    "level_text": "Decision logic, all declared lists / output shapes, digests abstract: C35_exact (exact accepted set), C35_iff / C35_iff_checkers "
+                  "(⇔ the property's condition `∃ algo ∈ hashfunction::hashcheckers, ∃ d declared, unprefix d = hex(outputHash_algo outs)` for every "
+                  "target whose output is not one lone directory), C35_sound (the `only if` for every shape), C35_single_dir, C35_prefixed / "
+                  "C35_unprefixed_verbatim / C35_hashes_untouched / C35_alias_idempotent / C35_nonhex_rejected / C35_wrong_length_rejected "
+                  "(several colons, blanks, upper case, lengths). Step order: C35_no_trusted_leftover (failed verification ⇒ no output, "
+                  "needsBuilding true for every definition, cache untouched; keep-old included), C35_success_verified, C35_filegroup_verified, "
+                  "C35_main / C35_property (over ALL histories of builds with any definitions under any configurations — the key covers the "
+                  "checkers: C35_key_covers_checkers —, arbitrary poisoned/stale cache contents and removals, a successful build ends with outputs "
+                  "whose digest under the current hash function or a currently configured checker is declared). The two failures found on the "
+                  "pinned tree are FIXED in /repo (filegroup check inside `if changed`: 2c4e62b; hashcheckers outside every hash: 9c3fe2b); their "
+                  "witnesses are kept as theorems about the old fact values and as fixed-*.ops corpus files whose oracle must pass. Recorded "
+                  "corners that are not property failures: C35_corner_{hashfunction_outside_checkers,single_dir,stale_memo,stale_memo_dir,"
+                  "noverify}. Out of model: remote execution, post-build functions / output_dirs, remote_file downloads, http cache, crashes "
+                  "between restore and verification, path-hash collisions (C09), `plz hash --update`.",
     "technique": "Lean 4 theorems over a facts-instantiated model of the check and of the buildTarget step order + regenerated facts + "
                  "in-process differential correspondence of checkRuleHashes/UnprefixedHashes + end-to-end histories on the real plz binary "
                  "with an independent Go spec as direct oracle",
@@ -62,6 +64,8 @@ m6  checkRuleHashes first comparison: `h == hashStr` -> strings.EqualFold       
     24 disagreements
 m7  buildTarget: storeInCache moved before calculateAndCheckRuleHash                     exit 1: VIOLATION failed-output-stored-in-cache, 25 disagreements
 h1  harmless: locals renamed in UnprefixedHashes and checkRuleHashes, independent statements reordered   exit 0, facts identical
+m13 ruleHash: the HashCheckers block removed again (= revert of fix 9c3fe2b)              exit 1: see below
+m14 filegroup branch back to `if changed {check}` (= revert of fix 2c4e62b)               exit 1: see below
 m12 (after /repo fix 656076b) UnprefixedHashes back to `hashes := target.Hashes[:]`: fact unprefixAliases=true, FactsOK false; the in-process
     oracle class unprefixed-hashes-rewrites-declared-list names the input (facts-only + oracle by construction, not dry-run end to end).
 facts-only (extractor run on the mutated copy, FactsOK no longer true): m8 `combine := len(outputs) > 1`, m9 file names always written
